@@ -24,4 +24,7 @@ def f18 : Bool := true
 /-- F23: copy names the landing entry after the source argument confined to the source root ("sub/.." is the root) -/
 def f23 : Bool := true
 
+/-- F24: WriteTar applies the hard-link reset to the view it is given (as Send does) -/
+def f24 : Bool := true
+
 end Fsm.Fix
